@@ -33,3 +33,6 @@ reg('C17', 'propchecks.relprops', 'proof', T6 + [('Bashlex.parse_strict_irreleva
       ('Bashlex.parsesingle_strict_irrelevant', QC), ('Bashlex.parsesingle_proceed_irrelevant', QC)], [ASCII, DEPTH, CORR])
 
 reg('C11', 'propchecks.c11', 'proof', T1[:1] + [('Bashlex.Q.run_touched_irrelevant', QC), ('Bashlex.History.results_eq_solo', QC)], [ASCII, DEPTH, CORR])
+
+reg('C09', 'propchecks.lrcheck', 'proof', T1, ['the <= direction (every derivable sentence is accepted) is not proved: it is evaluated against an Earley recogniser on all enumerated token sequences', CORR])
+reg('C08', 'propchecks.c08', 'proof', T1, [ASCII, DEPTH, CORR])
